@@ -407,6 +407,8 @@ def _range_bounds(it, r, n):
             return x.v
         k = it.choose(n + 1, [x.z() == z3.BitVecVal(j, x.w) for j in range(n + 1)] )
         return k
+    if t.endswith('RangeToInclusive'):
+        return 0, _cap(it, it.binop('Add', r.fields[0], usize(1)), n)
     if t.endswith('RangeTo'):
         return 0, _cap(it, r.fields[0], n)
     if t.endswith('RangeFrom'):
